@@ -429,6 +429,8 @@ def call_expr(prog, nd, c, arg="x"):
         return "%s.call_batch([{\"x\": %s}])[0]" % (t["name"], arg)
     if c["form"] == "chain":  # the callee is named only inside the argument list of a call whose result is used through an attribute
         return "box(%s(%s)).plus(0).v" % (t["name"], arg)
+    if c["form"] == "kw2":  # both parameters bound by keyword (same module only)
+        return "%s(x=%s, y=2)" % (t["name"], arg)
     if c["form"] == "attr":
         return "a.%s(%s)" % (t["name"], arg)
     if c["form"] == "pattr":
@@ -553,6 +555,14 @@ def render_def(prog, i, skip_names=()):
     for late in nd.get("late_both", []):  # (module b) the same name as a global of this module and as an attribute of module a
         L += ["    if x < -1000:", "        r += %s(x)" % late, "        r += a.%s(x)" % late]
     L.append("    return r")
+    if nd.get("pswap"):
+        # the parameters x and y exchange their names, in the signature and throughout the body: the same instructions,
+        # other names for the slots (it matters to callers that bind by keyword)
+        import re
+
+        k = next(n for n, ln in enumerate(L) if ln.startswith("def %s(" % nd["name"]))
+        swap = lambda ln: re.sub(r"\b([xy])\b", lambda mo: "y" if mo.group(1) == "x" else "x", ln)
+        L[k:] = [swap(ln) for ln in L[k:]]
     return "\n".join(L) + "\n"
 
 
@@ -974,6 +984,11 @@ def apply_edit(rng, prog, kind=None, force_var=None, force_node=None):
         for i in cand:
             if nodes[i].get("lamdefault") is not None:
                 nodes[i]["lamdefault"] += rng.randint(1, 5)
+                return done(i)
+    if kind == "pswap":  # (aimed use only) the parameters x and y exchange their names
+        for i in cand:
+            if nodes[i]["kind"] in ("memento", "plain") and len(nodes[i]["params"]) > 1:
+                nodes[i]["pswap"] = not nodes[i].get("pswap")
                 return done(i)
     if kind == "gx_const":  # the string constant inside a generator expression / lambda of the body
         for i in cand:
